@@ -331,6 +331,17 @@ class ExternalVariableCollector(NodeVisitor):
             self.provenance[name] = "body"
             self.assigned.add(name)
 
+    def visit_MatchAs(self, node):
+        # Patterns bind names: `case [x, *rest]`, `case {**rest}`, `case C() as x`
+        name = getattr(node, "name", None) or getattr(node, "rest", None)
+        if name is not None:
+            self.provenance.setdefault(name, "body")
+            self.assigned.add(name)
+        self.generic_visit(node)
+
+    visit_MatchStar = visit_MatchAs
+    visit_MatchMapping = visit_MatchAs
+
     def visit_arg(self, node):
         if node.lineno in self.comments:
             self.vardoc[node.arg] = self.comments[node.lineno]
@@ -908,6 +919,47 @@ class PteraTransformer(NodeTransformer):
             ),
             node,
         )
+
+    def visit_match_case(self, node):
+        """Rewrite a case block.
+
+        Before:
+            case [x, *rest]:
+                ...
+
+        After:
+            case [x, *rest]:
+                x = _ptera_interact('x', None, x)
+                rest = _ptera_interact('rest', None, rest)
+                ...
+        """
+        names = []
+
+        def collect(pattern):
+            # In the order the names are bound: sub-patterns come first
+            for child in ast.iter_child_nodes(pattern):
+                collect(child)
+            if type(pattern).__name__ in ("MatchAs", "MatchStar"):
+                name = pattern.name
+            elif type(pattern).__name__ == "MatchMapping":
+                name = pattern.rest
+            else:
+                return
+            if name is not None and name not in names:
+                names.append(name)
+
+        collect(node.pattern)
+        new_body = []
+        for name in names:
+            target = ast.copy_location(
+                ast.Name(id=name, ctx=ast.Store()), node.pattern
+            )
+            new_body.extend(self.generate_interactions(target))
+        new_body.extend(self.visit_body(node.body))
+        node.pattern = self.visit(node.pattern)
+        node.guard = node.guard and self.visit(node.guard)
+        node.body = new_body
+        return node
 
     def visit_ExceptHandler(self, node):
         if node.name is None:
